@@ -60,6 +60,23 @@ class IRAttrs:
                     return self.pm.classes[q]
         return c
 
+    def attrs_of_class(self, c):
+        """Instance attributes of any modelled class (same rule as attrs_of)."""
+        key = 'class:' + c.qualname
+        if key in self._attrs:
+            return self._attrs[key]
+        out = set()
+        for k in self.pm.mro(c):
+            out.update(k.methods)
+            out.update(k.attrs)
+            for m in k.methods.values():
+                for n in own_nodes(m.node):
+                    if isinstance(n, ast.Attribute) and isinstance(n.ctx, ast.Store) and \
+                            isinstance(n.value, ast.Name) and n.value.id == 'self':
+                        out.add(n.attr)
+        self._attrs[key] = frozenset(out)
+        return self._attrs[key]
+
     def attrs_of(self, name):
         if name in self._attrs:
             return self._attrs[name]
